@@ -106,7 +106,10 @@ def run_variant(v: dict) -> Tuple[dict, bool, str]:
         for prop in props:
             proc = subprocess.run(
                 [sys.executable, os.path.join(VERIF, "check"), prop, "--repo", tmp,
-                 "--evidence-dir", os.path.join(tmp, "ev"), "--tier", "quick"],
+                 "--evidence-dir", os.path.join(tmp, "ev"), "--tier",
+                 # ASL_SELFTEST_META=1: also demand the same verdict under the behaviour-preserving
+                 # rewrites of tools/refactor (for mutants only: the rewrites of a rewrite are not stacked)
+                 "thorough" if os.environ.get("ASL_SELFTEST_META") == "1" and v["kind"] == "mutant" else "quick"],
                 capture_output=True, text=True, timeout=300,
             )
             out = proc.stdout + proc.stderr
@@ -118,6 +121,9 @@ def run_variant(v: dict) -> Tuple[dict, bool, str]:
                 if hit and v.get("unit") and v["unit"] not in out:
                     hit = False
                     msgs.append(f"{prop}: fired but did not name unit {v['unit']}")
+                if "DIFFERENT VERDICT" in out:
+                    hit = False
+                    msgs.append(f"{prop}: verdict not invariant: " + " ".join(l.strip() for l in out.splitlines() if "DIFFERENT" in l)[:300])
                 if not hit:
                     ok = False
                     msgs.append(f"{prop}: MISSED (rc={proc.returncode}) " + _tail(out))
@@ -155,6 +161,9 @@ def run_many(variants: List[dict], jobs: int) -> int:
 
 
 def run_slice(prop: str, jobs: int = 16) -> int:
+    """Thorough tier of one property: its mutants (each also under the behaviour-preserving
+    rewrites: the verdict must not change) and every neutral variant."""
+    os.environ["ASL_SELFTEST_META"] = "1"
     vs = [v for v in load_variants() if prop in (v.get("props") or [v.get("prop")])]
     return run_many(vs, jobs)
 
